@@ -1,3 +1,4 @@
+import CfbVerif.Spec.Consts
 import CfbVerif.Phys.Api
 import CfbVerif.Phys.Codec
 /-!
